@@ -109,3 +109,44 @@ package logicalplan
 //@   requires expr != nil
 //@   at logicalplan.propagateMatchers assert[C09] only-arithmetic-one-to-one-on-all-labels: !$binOp.Op.IsComparisonOperator() &&
 //@       ($binOp.VectorMatching == nil || (!$binOp.VectorMatching.On && len($binOp.VectorMatching.MatchingLabels) == 0 && $binOp.VectorMatching.Card == parser.CardOneToOne))
+
+// ---- distribute.go (C10) -------------------------------------------------------------------------
+// Push-down is sound only for aggregations that distribute over a disjoint union of partitions:
+// sum, min, max, group, topk, bottomk re-aggregated with themselves and count re-aggregated with sum
+// (avg, stddev, stdvar, quantile, count_values do not). The code obligations:
+//  - isDistributive: never for a binary expression (a join needs all data); for an aggregation only
+//    if its operator is one of those seven;
+//  - every distributive aggregation is distributed WHERE IT STANDS and the traversal stops there: the
+//    node becomes the local re-aggregation (count -> sum, otherwise the same operator) with the same
+//    parameter, grouping and by/without over the remote sub-queries - an aggregation is never pushed
+//    down inside another one (count(count by ..) over split groups would count a group once per engine);
+//  - a sub-query is sent to every engine and its text is the text of the replaced sub-tree.
+//@ func isDistributive
+//@   assigns nothing
+//@   ensures[C10] nil-is-not-distributive: expr == nil ==> !result
+//@   ensures[C10] joins-are-not-distributive: expr != nil && istype(*expr, *parser.BinaryExpr) ==> !result
+//@   ensures[C10] only-aggregations-that-distribute-over-union: expr != nil && istype(*expr, *parser.AggregateExpr) && result ==>
+//@       cast(*expr, *parser.AggregateExpr).Op == parser.SUM || cast(*expr, *parser.AggregateExpr).Op == parser.MIN || cast(*expr, *parser.AggregateExpr).Op == parser.MAX ||
+//@       cast(*expr, *parser.AggregateExpr).Op == parser.GROUP || cast(*expr, *parser.AggregateExpr).Op == parser.COUNT ||
+//@       cast(*expr, *parser.AggregateExpr).Op == parser.TOPK || cast(*expr, *parser.AggregateExpr).Op == parser.BOTTOMK
+//@ func (DistributedExecutionOptimizer).makeSubQueries
+//@   requires current != nil && *current != nil && preexisting(current)
+//@   ensures[C10] one-sub-query-per-engine: len(result.Expressions) == len(engines) && (forall i in 0..len(engines) ::
+//@       istype(result.Expressions[i], *logicalplan.RemoteExecution) && cast(result.Expressions[i], *logicalplan.RemoteExecution).Engine == engines[i] &&
+//@       cast(result.Expressions[i], *logicalplan.RemoteExecution).Query == (*current).String())
+//@   loop 0 invariant 0 <= i && i <= len(engines) && len(remoteQueries.Expressions) == len(engines) && fresh(remoteQueries.Expressions) && !isnil(remoteQueries.Expressions) && *current == old(*current) && (forall j in 0..i ::
+//@       istype(remoteQueries.Expressions[j], *logicalplan.RemoteExecution) && allocated(cast(remoteQueries.Expressions[j], *logicalplan.RemoteExecution)) && cast(remoteQueries.Expressions[j], *logicalplan.RemoteExecution).Engine == engines[j] &&
+//@       cast(remoteQueries.Expressions[j], *logicalplan.RemoteExecution).Query == (*current).String())
+//@ func (DistributedExecutionOptimizer).Optimize$1
+//@   requires current != nil && *current != nil
+//@   requires istype(*current, *parser.AggregateExpr) ==> cast(*current, *parser.AggregateExpr) != nil
+//@   ensures[C10] non-distributive-nodes-stop-the-traversal-untouched: !callres("logicalplan.isDistributive", 1) ==> result && *current == old(*current)
+//@   ensures[C10] a-distributive-aggregation-is-distributed-where-it-stands: callres("logicalplan.isDistributive", 1) && istype(old(*current), *parser.AggregateExpr) ==>
+//@       result && istype(*current, *parser.AggregateExpr) && fresh(cast(*current, *parser.AggregateExpr)) &&
+//@       cast(*current, *parser.AggregateExpr).Op == ite(old(cast(*current, *parser.AggregateExpr).Op) == parser.COUNT, parser.SUM, old(cast(*current, *parser.AggregateExpr).Op)) &&
+//@       cast(*current, *parser.AggregateExpr).Param == old(cast(*current, *parser.AggregateExpr).Param) &&
+//@       cast(*current, *parser.AggregateExpr).Without == old(cast(*current, *parser.AggregateExpr).Without) &&
+//@       sameslice(cast(*current, *parser.AggregateExpr).Grouping, old(cast(*current, *parser.AggregateExpr).Grouping)) &&
+//@       istype(cast(*current, *parser.AggregateExpr).Expr, logicalplan.Coalesce)
+//@   ensures[C10] other-nodes-are-sent-whole-only-below-a-non-distributive-parent: callres("logicalplan.isDistributive", 1) && !istype(old(*current), *parser.AggregateExpr) ==>
+//@       (result <==> !callres("logicalplan.isDistributive", 2)) && (result ==> istype(*current, logicalplan.Coalesce)) && (!result ==> *current == old(*current))
